@@ -123,5 +123,8 @@ Definition op_ok (p : chunked) (o : aop) : bool :=
       wf_larr_b (la_len v) v && forallb (fun b => b) (lvalid v)
       && (negb (la_len v =? m_len p)
           || forallb2 (fun (s : bool) d => s || (d =? 0)) (concat (map svalid (chunks p))) (diffs (offs v)))
+  (* keep_dtype on an existing field: the offered element type is the field's type (casting is Arrow's business) *)
+  | OFill nm ty vs keep =>
+      negb keep || match schema_type (ctype p) nm with Some t => ety_eqb t ty | None => true end
   | _ => true
   end.
